@@ -488,7 +488,24 @@ def oracle_dispatch(inp):
     return None
 
 
-ORACLES = {'roundtrip': oracle_roundtrip, 'dispatch': oracle_dispatch}
+def oracle_parse_seq(inp):
+    """several records handed to from_data one after the other in ONE process (mixed kinds, the
+    same record more than once, malformed ones in between): every record that has a spec must
+    parse to its expected attributes as if it were the only one ever parsed"""
+    for n, item in enumerate(inp['calls']):
+        if 'spec' in item:
+            r = oracle_roundtrip({'spec': item['spec']})
+            if r:
+                return r[0], 'record %d of %d parsed in this process: %s' % (n + 1, len(inp['calls']), r[1])
+        else:
+            try:
+                parse(list(bytes.fromhex(item['raw'])))
+            except Exception:  # noqa
+                pass
+    return None
+
+
+ORACLES = {'roundtrip': oracle_roundtrip, 'dispatch': oracle_dispatch, 'parse_seq': oracle_parse_seq}
 
 
 def viol_key(s, sig):
@@ -522,13 +539,39 @@ def run(ctx):
         terms.append(term)
         meta.append(info)
 
+    log = []          # everything handed to from_data in this process so far, in order
+    budget = [8]      # fresh-interpreter confirmations of failures (each may shrink a history)
+
+    def report(s, r, history):
+        """a record whose parse differs from its spec: does it fail when replayed alone in a fresh
+        interpreter?  If not, what was parsed before it is part of the failing input."""
+        key = viol_key(s, r[0])
+        if key in fails or 'history:' + key in fails:
+            return
+        single = {'oracle': 'roundtrip', 'input': {'spec': s}}
+        if budget[0] <= 0 or not C.holds_in_fresh_process('C16', single):
+            fails[key] = C.Violation(key=key, what=r[1], replay=single)
+            return
+        budget[0] -= 1
+        me = {'spec': s}
+        for cand in ([me, me], history[-6:] + [me], history[-40:] + [me], history + [me]):
+            seq = C.shrink_history('C16', 'parse_seq', cand)
+            if seq:
+                fails['history:' + key] = C.Violation(
+                    key='history:' + key,
+                    what='%s [correct when parsed alone in a fresh interpreter; fails after the %d earlier record(s) of the '
+                         'stored history]' % (r[1], len(seq) - 1),
+                    replay={'oracle': 'parse_seq', 'input': {'calls': seq}})
+                return
+        fails[key] = C.Violation(key=key, what=r[1] + ' [holds when replayed alone; no reproducing history found]',
+                                 replay=single)
+
     def oracle_rt(s):
         res.evaluations += 1
         r = oracle_roundtrip({'spec': s})
         if r:
-            key = viol_key(s, r[0])
-            if key not in fails:
-                fails[key] = C.Violation(key=key, what=r[1], replay={'oracle': 'roundtrip', 'input': {'spec': s}})
+            report(s, r, list(log))
+        log.append({'spec': s})
 
     def corr_spec(s, tag):
         data = encode(s)
@@ -537,6 +580,7 @@ def run(ctx):
         D.add(('rec', data), True, tag + ':' + s['kind'])
 
     def corr_parse(data, tag):
+        log.append({'raw': bytes(data).hex()})
         try:
             obj = parse(as_input(rng, data))
             exp = '(Ok %s)' % coq_obs(observe_obj(obj))
@@ -546,6 +590,29 @@ def run(ctx):
             exp = exc_term(e)
         add('chk_parse %s %s' % (C.c_hex(data), exp), ('parse', tag, bytes(data).hex()))
 
+    # 0. history stage (first, while nothing has been parsed in this process): sequences of records
+    #    of mixed kinds in varied order, the same record again later, malformed input in between;
+    #    every parse is compared with the stateless model (chk_parse) and judged by the oracle
+    for i in range(8 if q else 60):
+        pool, n = [], rng.randrange(4, 11)
+        for j in range(n):
+            c = rng.random()
+            if pool and c < 0.3:
+                s = rng.choice(pool)                       # the same record again
+            elif c < 0.4:
+                junk = bytes([rng.randrange(256), 0, 0x51, rng.choice(list(CLASS_OF_TYPE)), 3] +
+                             [rng.randrange(256) for _ in range(rng.randrange(0, 30))])
+                corr_parse(junk, 'history-malformed')
+                continue
+            else:
+                s = gen_spec(rng, rng.choice(['full', 'full', 'full', 'compact', 'event', 'fruloc', 'mcloc', 'mcconf', 'oem', 'other']))
+                if s['kind'] == 'full' and (i + j) % 2 == 0:
+                    for name, lim in (('m', 512), ('b', 512), ('k1', 8), ('k2', 8)):   # negative factors, every other full record
+                        s['f'][name] = -(abs(s['f'][name]) % lim) - 1
+                pool.append(s)
+            corr_spec(s, 'history')
+            oracle_rt(s)
+        D.add(('history', i), True, 'history-sequence')
     # 1. boundary + random records of every kind (correspondence + oracle)
     for k in kinds:
         for mode in ('zero', 'max', 'min'):
@@ -634,7 +701,9 @@ def run(ctx):
     res.evaluations += len(terms)
     res.distinct_nontrivial = D.distinct
     res.histogram = D.hist
-    res.rule = ('spec records of the 8 kinds: all-zero / all-max / all-min boundary records x 4 id encodings, random '
+    res.rule = ('history stage first: sequences of 4..10 records of mixed kinds parsed in one process (same record '
+                'again, malformed input in between), a failure that does not reproduce alone in a fresh interpreter is '
+                'reported with its shrunk history; then spec records of the 8 kinds: all-zero / all-max / all-min boundary records x 4 id encodings, random '
                 'records (each field boundary with p=0.4 else uniform), id strings of every encoding x length 0..16 on '
                 'the 5 kinds carrying one, full-record sweeps of M, B (-512..511), accuracy (0..1023), all 256 exponent '
                 'pairs, all unit/flag sub-fields (oracle on every record, correspondence on a sample), every prefix of '
